@@ -657,7 +657,7 @@ fn get_bits(b: &[u8], pos: usize, n: usize) -> Option<u64> {
 /// `len` bytes starts there): is there a start bit offset such that the bits read
 /// ISLAST=0, MNIBBLES=11, reserved 0, MSKIPBYTES, MSKIPLEN-1, zero padding?
 fn metadata_header_ok(b: &[u8], end: usize, len: usize) -> bool {
-    let nbytes: usize = if len == 0 { 0 } else { let v = len - 1; if v == 0 { 0 } else { ((64 - (v as u64).leading_zeros() as usize) + 7) / 8 } };
+    let nbytes: usize = if len == 0 { 0 } else { let v = len - 1; if v == 0 { 1 } else { ((64 - (v as u64).leading_zeros() as usize) + 7) / 8 } };
     let hdr_bits = 6 + 8 * nbytes;
     let end_bit = end * 8;
     for pad in 0..8usize {
@@ -1311,8 +1311,39 @@ fn run_corpus(rep: &mut Report, lines: &mut Vec<(String, String)>) {
     }
 }
 
+/// `bvh stream replay <file>`: run the history line(s) of a file, print what happened
+fn replay_file(path: &str) {
+    let txt = std::fs::read_to_string(path).unwrap_or_default();
+    for l in txt.lines() {
+        let l = l.trim();
+        if l.is_empty() || l.starts_with('#') { continue; }
+        let mut s = Session::new();
+        for t in l.split(' ') {
+            match Call::parse(t) {
+                Some(Call::Set(i, v)) => { let r = s.set(i, v); println!("P {} {} -> {}", i, v, r); }
+                Some(Call::Stream { op, mut data, offered, cap }) => {
+                    data.resize(offered, 0);
+                    let (r, c, p) = s.stream(op, &data, cap);
+                    let sn = snap(&s.enc);
+                    println!("C op={} in={} cap={} -> ret={} consumed={} produced={} | st={} ip={} lf={} lp={} carry={}b ao={} rm={} fin={} events={:?}", op, offered, cap, r, c, p, sn.st, sn.ip, sn.lf, sn.lp, sn.lbb, sn.ao, sn.rm as i64, sn.fin, s.recs.last().map(|r| r.events.iter().map(|e| (e.site, e.lp_before, e.input_pos, e.is_last, e.force_flush, e.out_size, e.cb_after, e.lf_after)).collect::<Vec<_>>()).unwrap_or_default());
+                }
+                Some(Call::Take(n)) => { let k = s.take(n); println!("T {} -> {}", n, k); }
+                None => println!("?? {}", t),
+            }
+            if let Some(p) = &s.dead { println!("DEAD: {}", p); break; }
+        }
+        let fed: Vec<u8> = s.recs.iter().filter_map(|r| if let Call::Stream { op, data, .. } = &r.call { if *op != OP_METADATA && r.ret { Some(data[..r.consumed].to_vec()) } else { None } } else { None }).flatten().collect();
+        println!("delivered {} bytes: {}", s.delivered.len(), hex(&s.delivered[..s.delivered.len().min(200)]));
+        let sn = snap(&s.enc);
+        println!("contract: {:?}", check_contract(&s.recs));
+        if sn.fin { println!("decode: {:?}", dec::decode_both(&s.delivered, sn.lw, &fed)); }
+        else { let (st, v) = decode_prefix(&s.delivered, fed.len() + 65536); println!("prefix decode: state {} {} bytes, equal to fed prefix: {}", st, v.len(), fed.starts_with(&v)); }
+    }
+}
+
 pub fn run_cmd(args: &Args) {
     install_panic_hook();
+    if args.rest.get(0).map(|s| s.as_str()) == Some("replay") { replay_file(args.rest.get(1).map(|s| s.as_str()).unwrap_or("")); return; }
     let thorough = args.tier == "thorough";
     let which = args.rest.get(0).map(|s| s.as_str()).unwrap_or("all").to_string();
     let mut corr = Corr::new(&args.out);
